@@ -164,7 +164,7 @@ func (r *replicator) tick(stop <-chan struct{}) {
 		)
 		r.mu.RUnlock()
 		outOfSync := lastSeenElapsed > r.maxLagTime || lastCaughtUpElapsed > r.maxLagTime
-		verifTrace("replicator.tick", r.leader, r.replica, outOfSync, r.partition.inISR(r.replica))
+		verifTrace("replicator.tick", r.leader, r.replica, outOfSync, r.partition)
 		if outOfSync && r.partition.inISR(r.replica) {
 			// Follower has not sent a request or has not caught up in
 			// maxLagTime, so remove it from the ISR.
